@@ -1996,7 +1996,7 @@ def tag_fn(ctx: "Wtp", token: str) -> None:
 
     # Try to parse it as a start tag
     m = re.match(
-        r"""<([-a-zA-Z0-9]+)\s*((\b[-a-zA-Z0-9:]+(\s*=\s*("[^"]*"|"""
+        r"""<([-a-zA-Z0-9]+)\s*((\b[-a-zA-Z0-9:_.]+(\s*=\s*("[^"]*"|"""
         r"""'[^']*'|[^ \t\n"'`=<>]*))?\s*)*)/?>""",
         token,
     )
@@ -2216,7 +2216,8 @@ token_list: list[str] = [
     r"[ \t]+\n*",
     r":",  # sometimes special when not beginning of line
     r"<<[-a-zA-Z0-9/]*>>",
-    r"""<[-a-zA-Z0-9]+\s*(\b[-a-zA-Z0-9:]+(\s*=\s*("[^<>"]*"|"""  # HTML start
+    # (attribute names may contain ":", "_", "." and "-", as in MediaWiki)
+    r"""<[-a-zA-Z0-9]+\s*(\b[-a-zA-Z0-9:_.]+(\s*=\s*("[^<>"]*"|"""  # HTML start
     r"""'[^<>']*'|[^ \t\n"'`=<>]*))?\s*)*/?>""",  # HTML start tag
     r"</[-a-zA-Z0-9]+\s*>",
     r"(" + r"|".join(r"\b{}\b".format(x) for x in MAGIC_WORDS) + r")",
